@@ -509,20 +509,52 @@ def r01d(ctx):
         raise Inconclusive("_child_edits: expected loops over own pairs and over the other mapping")
     own = loops[0]
     # own loop: if key in other: (yield ...) else: defer
-    ifs = [s for s in own.body if isinstance(s, ast.If)]
     n += 1
-    ok = False
-    detail = ""
-    if ifs:
-        t = ifs[0].test
-        ttxt = ast.unparse(t).replace(" ", "")
-        body_y = _yields_per_path(ifs[0].body)
-        else_d = [c for s in ifs[0].orelse for c in ast.walk(s) if isinstance(c, ast.Call) and isinstance(c.func, ast.Attribute)
-                  and c.func.attr in ("append", "add")]
-        else_y = _yields_per_path(ifs[0].orelse)
-        ok = ttxt.endswith(f"in{other}") and body_y == {1} and (else_d and else_y == {0} or else_y == {1})
-        detail = f"test `{ast.unparse(t)}`; yields per path in then-branch {sorted(body_y)}, else-branch {sorted(else_y)}, deferrals {len(else_d)}"
-        deferred = dotted(else_d[0].func.value) if else_d else None
+    # path enumeration over the loop body (if/else nesting and guard clauses ending in `continue` alike): on every path on
+    # which the key is in the other mapping exactly one edit is yielded; on every path on which it is not, the pair is
+    # deferred exactly once (and nothing is yielded) or one edit is yielded directly
+    def paths(stmts, facts, y, d):
+        if not stmts:
+            return [(facts, y, d, False)]
+        s_, rest = stmts[0], stmts[1:]
+        if isinstance(s_, ast.If):
+            out = []
+            for pol, branch in ((True, s_.body), (False, s_.orelse)):
+                for fc, yy, dd, ended in paths(branch, facts + [(s_.test, pol)], y, d):
+                    out += [(fc, yy, dd, True)] if ended else paths(rest, fc, yy, dd)
+            return out
+        if isinstance(s_, ast.Continue):
+            return [(facts, y, d, True)]
+        yk = sum(1 for x in ast.walk(s_) if isinstance(x, (ast.Yield, ast.YieldFrom)))
+        dk = [c for c in ast.walk(s_) if isinstance(c, ast.Call) and isinstance(c.func, ast.Attribute) and c.func.attr in ("append", "add")]
+        return paths(rest, facts, y + yk, d + dk)
+
+    def membership(facts):
+        for t, pol in facts:
+            if isinstance(t, ast.Compare) and len(t.ops) == 1 and dotted(t.comparators[0]) == other:
+                if isinstance(t.ops[0], ast.In):
+                    return pol
+                if isinstance(t.ops[0], ast.NotIn):
+                    return not pol
+        return None
+    all_paths = paths(own.body, [], 0, [])
+    ok = bool(all_paths)
+    deferred = None
+    summary = []
+    for fc, yy, dd, _ in all_paths:
+        mem = membership(fc)
+        summary.append(f"{'in' if mem else ('not in' if mem is False else '?')}: {yy} yield(s), {len(dd)} deferral(s)")
+        if mem is True:
+            ok = ok and yy == 1 and not dd
+        elif mem is False:
+            ok = ok and ((yy == 0 and len(dd) == 1) or (yy == 1 and not dd))
+            if dd:
+                deferred = dotted(dd[0].func.value)
+        else:
+            ok = False
+    detail = "paths by membership of the key in the other mapping - " + "; ".join(sorted(set(summary)))
+    if True:
+        pass
     if ok:
         ctx.proved("R01d", f.file, "FixedKeyDictNode._child_edits", own, "own pairs", detail)
     else:
